@@ -17,12 +17,13 @@ pub struct EvaluationError {
     pub message: String,
 }
 
-pub type FunctionMap = HashMap<String, Arc<Mutex<dyn FunctionCallback + Send + Sync>>>;
+// A callback is shared, not locked: the arguments of a call may call the same function again (`ram16(ram16($fb))`)
+pub type FunctionMap = HashMap<String, Arc<dyn FunctionCallback + Send + Sync>>;
 
 pub trait FunctionCallback {
     fn expected_args(&self) -> usize;
     fn apply(
-        &mut self,
+        &self,
         ctx: &Evaluator,
         args: &[&Located<Expression>],
     ) -> EvaluationResult<Option<SymbolData>>;
@@ -254,7 +255,6 @@ impl<'a> Evaluator<'a> {
             ExpressionFactor::FunctionCall { name, args, .. } => {
                 match self.functions.get(name.data.as_str()) {
                     Some(callback) => {
-                        let mut callback = callback.lock().unwrap();
                         self.expect_args(name.span, args.len(), callback.expected_args())?;
                         callback.apply(self, &args.iter().map(|(expr, _)| expr).collect_vec())
                     }
